@@ -94,6 +94,22 @@ Section CRun.
 
   Definition cfinal (st : cstate) (ops : list cop) : cstate :=
     fold_left (fun st o => fst (cstep st o)) ops st.
+
+  (* the same run, computing the world only when the graph changes (used by the tie for speed;
+     Proofs/CacheSys.v crun_fast_eq: it equals crun) *)
+  Fixpoint crun_w (W : world) (st : cstate) (ops : list cop) : list (list nat) :=
+    match ops with
+    | [] => []
+    | CReg o' :: ops' =>
+        let '(s', a) := step W call (cs_sys st) o' in
+        a :: crun_w W (mkCS (cs_g st) (cs_if st) s') ops'
+    | CSetSpecBases x bs :: ops' =>
+        let g' := set_spec_bases (cs_g st) x bs in
+        [] :: crun_w (world_of g' (cs_if st)) (mkCS g' (cs_if st) (spec_changed (cs_g st) x (cs_sys st))) ops'
+    end.
+
+  Definition crun_fast (st : cstate) (ops : list cop) : list (list nat) :=
+    crun_w (world_of (cs_g st) (cs_if st)) st ops.
 End CRun.
 
 (* ---- classification of operations *)
